@@ -60,6 +60,8 @@ CONSTANTS
   Factors <- RFactors
   Ops <- ROps
   InitSketches <- RInit
+  MapToks = {1, 2}
+  ScaleToks = {0, 1, 2, 3, 4, 5, 6}
   Depth = %d
   Lazy = %s
 INVARIANT Emit
@@ -94,6 +96,7 @@ type SketchMatrix struct {
 	Reals    []string        // real store types to use for exact-kind stores
 	Aspects  map[string]bool
 	Modes    []string
+	MidKeysOnly bool // only key embeddings around 1.0 (values must stay inside both mappings' ranges after scaling)
 }
 
 var allMappingKinds = []string{"log", "linear", "cubic"}
@@ -128,6 +131,15 @@ func sketchConfigsFor(g *SketchGen, mx *SketchMatrix, thorough bool) []SketchCfg
 	for _, ms := range mx.Mappings {
 		conc := concretizerFor(ms[0])
 		kes := keyEmbeddingsFor(conc, g.maxKey(), hasColl, thorough)
+		if mx.MidKeysOnly {
+			var mid []keyEmbedding
+			for _, ke := range kes {
+				if ke.Base > -2000 && ke.Base < 2000 {
+					mid = append(mid, ke)
+				}
+			}
+			kes = mid
+		}
 		// the second mapping (if any) only ever receives refused merges or its own adds: require its bins to exist too
 		for ri := 0; ri < len(mx.Reals)*len(mx.Reals); ri++ {
 			posReal := make([]string, nslots)
@@ -152,7 +164,7 @@ func sketchConfigsFor(g *SketchGen, mx *SketchMatrix, thorough bool) []SketchCfg
 				for _, mode := range modes {
 					for pv := 0; pv < 2; pv++ {
 						out = append(out, SketchCfg{Init: g.Init, Mappings: ms, PosReal: posReal, NegReal: negReal, Keys: ke,
-							Q: g.Q, QDen: g.QDen, Mode: mode, Proto: pv, Aspects: mx.Aspects})
+							Q: g.Q, QDen: g.QDen, Mode: mode, Proto: pv, Aspects: mx.Aspects, Scales: scalesFor(ms[0])})
 					}
 				}
 			}
@@ -300,6 +312,8 @@ CONSTANTS
   Factors <- RFactors
   Ops <- ROps
   InitSketches <- RInit
+  MapToks = {1, 2}
+  ScaleToks = {0, 1}
   MaxTotal = %d
 CONSTRAINT Bounded
 VIEW View
